@@ -2,6 +2,7 @@ package coop
 
 import (
 	"fmt"
+	"os"
 	"time"
 )
 
@@ -20,6 +21,8 @@ type Exec struct {
 	Points   []ChoicePoint
 	Bounds   map[string]int
 	Diverged bool
+	// DivergeInfo describes the first divergence (debugging aid).
+	DivergeInfo string
 }
 
 func (x *Exec) choose(kind string, n int, runningEnabled bool, labels []string) int {
@@ -29,6 +32,9 @@ func (x *Exec) choose(kind string, n int, runningEnabled bool, labels []string) 
 		c = x.Prefix[i]
 		if c >= n {
 			// divergence while replaying a prefix: never an alarm, the branch is abandoned
+			if !x.Diverged {
+				x.DivergeInfo = fmt.Sprintf("point %d kind %s: prefix wants choice %d of %d enabled %v; prefix %v", i, kind, c, n, labels, x.Prefix)
+			}
 			x.Diverged = true
 			c = 0
 		}
@@ -138,6 +144,9 @@ func (e *Explorer) Explore(run RunFunc) *Result {
 		if x.Diverged {
 			res.Diverged++
 			res.Exhaustive = false
+			if os.Getenv("VERIF_DEBUG_DIVERGE") != "" {
+				fmt.Fprintf(os.Stderr, "DIVERGED %s: %s\n  trace %v\n", e.Name, x.DivergeInfo, out.Trace)
+			}
 			return
 		}
 		if len(x.Points) > res.MaxPoints {
@@ -156,13 +165,17 @@ func (e *Explorer) Explore(run RunFunc) *Result {
 			for k := 0; k < 2; k++ {
 				y := &Exec{Prefix: x.Choices(), Bounds: e.Bounds}
 				o2 := run(y)
-				if y.Diverged || o2.Err == nil || o2.Err.Error() != out.Err.Error() || fmt.Sprint(o2.Trace) != fmt.Sprint(out.Trace) {
+				// (errors are compared by their first line: panic reports carry goroutine numbers and addresses)
+				if y.Diverged || o2.Err == nil || firstLine(o2.Err.Error()) != firstLine(out.Err.Error()) || fmt.Sprint(o2.Trace) != fmt.Sprint(out.Trace) {
 					ok = false
 				}
 			}
 			if !ok {
 				res.Diverged++
 				res.Exhaustive = false
+				if os.Getenv("VERIF_DEBUG_DIVERGE") != "" {
+					fmt.Fprintf(os.Stderr, "UNCONFIRMED %s: %v\n  trace %v\n", e.Name, out.Err, out.Trace)
+				}
 			} else if !seenSig[out.Signature] || out.Signature == "" {
 				seenSig[out.Signature] = true
 				res.Violations = append(res.Violations, Violation{Scenario: e.Name, Choices: x.Choices(), Trace: out.Trace,
@@ -201,4 +214,13 @@ func (e *Explorer) Explore(run RunFunc) *Result {
 	}
 	rec(nil)
 	return res
+}
+
+func firstLine(s string) string {
+	for i := 0; i < len(s); i++ {
+		if s[i] == '\n' {
+			return s[:i]
+		}
+	}
+	return s
 }
